@@ -45,11 +45,11 @@ func mixCase(r *gen.Rand, s string) string {
 }
 
 type profile struct {
-	tabs     bool // HTAB as OWS
-	emptyPar bool // empty parameters (";;")
+	tabs     bool // HTAB as OWS (in the grammar: OWS = *( SP / HTAB ))
+	emptyPar bool // empty parameters (";;"; in the grammar: parameters = *( OWS ";" OWS [ parameter ] ))
 	upperQ   bool // "Q=" weight
 	oddQ     bool // q texts outside the RFC qvalue grammar
-	dupPar   bool // duplicate parameter names in a range
+	dupPar   bool // repeated parameter names in a range (in the grammar; the last value counts, once)
 	junk     bool // arbitrary extra junk (non-grammar)
 }
 
@@ -165,11 +165,26 @@ func genElem(r *gen.Rand, kind string, offers []string, pf profile) elem {
 		np = 1
 	}
 	used := map[string]bool{}
+	if pf.emptyPar && r.Chance(1, 5) {
+		// an empty parameter right after the range ("text/html; ;a=1")
+		e.params = append(e.params, param{ows1: ows(r, pf.tabs), ows2: ows(r, pf.tabs)})
+	}
 	for i := 0; i < np; i++ {
 		p := genParam(r, pf)
 		if !pf.dupPar {
 			for used[strings.ToLower(p.name)] {
 				p.name = gen.Pick(r, pnames)
+			}
+		} else if i > 0 && r.Chance(1, 2) {
+			// repeat the previous name, possibly in the other case (in the grammar: the last value counts, once)
+			p.name = e.params[len(e.params)-1].name
+			if p.name == "" && len(e.params) > 1 {
+				p.name = e.params[len(e.params)-2].name
+			}
+			if p.name == "" {
+				p.name = gen.Pick(r, pnames)
+			} else if r.Chance(1, 3) {
+				p.name = strings.ToUpper(p.name)
 			}
 		}
 		used[strings.ToLower(p.name)] = true
@@ -251,12 +266,13 @@ func genCase(w *gen.Writer, r *gen.Rand, id string) {
 		return
 	}
 	var pf profile
-	// most cases stay inside the strict grammar; each deviation profile is drawn independently
-	pf.tabs = r.Chance(1, 8)
-	pf.emptyPar = r.Chance(1, 10)
+	// tabs and emptyPar stay inside the grammar; upperQ too (ABNF literals are case-insensitive);
+	// dupPar too (the grammar does not forbid a repeated name); oddQ leaves it. Each profile is drawn independently
+	pf.tabs = r.Chance(1, 4)
+	pf.emptyPar = r.Chance(1, 5)
 	pf.upperQ = r.Chance(1, 10)
 	pf.oddQ = r.Chance(1, 10)
-	pf.dupPar = r.Chance(1, 12)
+	pf.dupPar = r.Chance(1, 8)
 	n := gen.Pick(r, []int{0, 1, 1, 2, 2, 3, 3, 4, 5, 7})
 	if r.Chance(1, 50) {
 		n = 12 + r.Intn(10)
